@@ -382,7 +382,7 @@ br_ssl_engine_set_buffer(br_ssl_engine_context *rc,
 			}
 			br_ssl_engine_set_buffers_bidi(rc,
 				buf, buf_len - w,
-				(unsigned char *)buf + w, w);
+				(unsigned char *)buf + (buf_len - w), w);
 		} else {
 			br_ssl_engine_set_buffers_bidi(rc,
 				buf, buf_len, NULL, 0);
